@@ -270,7 +270,7 @@ impl Ctx {
         }
     }
 
-    fn push_handle(&mut self, e: Entity) {
+    pub fn push_handle(&mut self, e: Entity) {
         let name = (self.cur_op, self.cur_sub);
         self.cur_sub += 1;
         self.by_name.insert(name, self.table.len());
@@ -289,7 +289,7 @@ impl Ctx {
         HRef::Tab(n, j)
     }
 
-    fn world(&mut self, w: usize) -> &mut World {
+    pub fn world(&mut self, w: usize) -> &mut World {
         self.worlds.get_mut(w).and_then(|x| x.as_mut()).expect("harness: no such world")
     }
 
